@@ -163,16 +163,27 @@ def run_items(items, job):
             n = 1
             pragma = f"{prefix}  pyml disable-next-line {ident.upper()} -->"
             named = {rule}
-        else:
+        elif form == 8:
             pragma, malformed = MALFORMED[r.below(len(MALFORMED))]
             n = 0
             named = set()
+        else:
+            # two cooperating pragmas: a range, and a next-line pragma for ANOTHER rule inside that range
+            n = r.choice([2, 3, 5])
+            pragma = f"{prefix} pyml disable-num-lines {n} {ident}-->"
+            named = {rule}
         new_lines = lines[:k] + [pragma] + lines[k:]
-        doc2 = "\n".join(new_lines)
         pl = k + 1  # 1-based line number of the pragma line in d'
+        second = None
+        if form == 9 and len(lines) - k >= 2:
+            j = r.randint(1, min(n - 1, len(lines) - k - 1)) if n > 1 else 1
+            second_rule = other if other != rule else allr[(allr.index(other) + 1) % len(allr)]
+            second = (pl + j, second_rule)  # line number (in the final document) of the second pragma
+            new_lines = new_lines[: pl + j - 1] + [f"<!-- pyml disable-next-line {second_rule}-->"] + new_lines[pl + j - 1 :]
+        doc2 = "\n".join(new_lines)
         v = set()
         detail = {"case": f"P:{ci}", "doc": doc, "pragma": pragma, "inserted_before_line": k + 1, "doc_with_pragma": doc2}
-        tag = "malformed" if malformed else ("next-line" if form <= 3 or form == 7 else "num-lines")
+        tag = "malformed" if malformed else ("next-line" if form <= 3 or form == 7 else ("pair" if second else "num-lines"))
         # (1) parser invisibility
         kind2, toks2, _ = pm.parse(tok, doc2, cpu_s=4)
         R.count("cases_compared")
@@ -182,6 +193,9 @@ def run_items(items, job):
         else:
             R.count("token_streams_compared")
             a = [_tok_key(t, shift_after=k) for t in base_toks if t.token_name != "pragma"]
+            if second:
+                # a second inserted line: shift once more everything at or after it
+                a = [(x[0], x[1] + 1 if x[1] >= second[0] else x[1], x[2], x[3], (x[4][0] + 1 if x[4][0] >= second[0] else x[4][0], x[4][1]) if x[4] else None) for x in a]
             b = [_tok_key(t) for t in toks2 if t.token_name != "pragma"]
             if not any(t.token_name == "pragma" for t in toks2):
                 v.add(f"{tag}:pragma-line-not-recognised")
@@ -206,7 +220,13 @@ def run_items(items, job):
             supp = 0
             for (ln, col, rid, extra) in base_fails:
                 ln2 = ln + 1 if ln > k else ln
+                if second and ln2 >= second[0]:
+                    ln2 += 1
+                # the range counts physical lines of the final document (the second pragma line is one of them)
                 if not malformed and rid.lower() in named and pl + 1 <= ln2 <= pl + n:
+                    supp += 1
+                    continue
+                if second and rid.lower() == second[1] and ln2 == second[0] + 1:
                     supp += 1
                     continue
                 want.append((ln2, col, rid, extra))
